@@ -26,6 +26,9 @@ def conv(node):
         return {'k': 'inv', 'e': conv(node.operand)}
     if isinstance(node, ast.BinOp):
         return {'k': 'bin', 'op': OPS[type(node.op)], 'l': conv(node.left), 'r': conv(node.right)}
+    if isinstance(node, ast.Call) and isinstance(node.func, ast.Attribute) and \
+            not isinstance(node.func.value, (ast.Name, ast.Attribute)) and len(node.args) == 1 and not node.keywords:
+        return {'k': 'meth', 'recv': conv(node.func.value), 'name': node.func.attr, 'arg': conv(node.args[0])}
     if isinstance(node, ast.Call):
         return {'k': 'call', 'path': dotted(node.func), 'args': [conv(a) for a in node.args],
                 'kwargs': [[k.arg, conv(k.value)] for k in node.keywords]}
@@ -79,4 +82,6 @@ def as_text_names(tree):
         return {'k': 'inv', 'e': as_text_names(tree['e'])}
     if k == 'bin':
         return {'k': 'bin', 'op': tree['op'], 'l': as_text_names(tree['l']), 'r': as_text_names(tree['r'])}
+    if k == 'meth':
+        return {'k': 'meth', 'recv': as_text_names(tree['recv']), 'name': tree['name'], 'arg': as_text_names(tree['arg'])}
     return tree
